@@ -14,7 +14,7 @@ fn main() {
     let args: Vec<String> = std::env::args().collect();
     // knobs that must work as command-line arguments: cargo-miri replays the environment it saw
     // when the binary was *built*, so environment variables set for a later run are overridden
-    for (flag, var) in [("--part", "LSVERIF_PART"), ("--depth", "LSVERIF_DEPTH"), ("--shim", "LSVERIF_SHIM"), ("--hosted", "LSVERIF_MIRI")] {
+    for (flag, var) in [("--part", "LSVERIF_PART"), ("--depth", "LSVERIF_DEPTH"), ("--shim", "LSVERIF_SHIM"), ("--hosted", "LSVERIF_MIRI"), ("--hosted-plan", "LSVERIF_HOSTED_PLAN")] {
         match arg(&args, flag) {
             // SAFETY: single-threaded, nothing has read the environment yet
             Some(v) => unsafe { std::env::set_var(var, v) },
